@@ -557,7 +557,7 @@ def parts(tier):
             Part("any_token_except", evaluate_ate, strategy=st_ate_case, examples=1200 * k)]
 
 
-TECHNIQUE = "differential property-based testing (Hypothesis): parser vs independent chart recogniser and own LL(1) predictive parser; exhaustive enumeration of all short token strings per generated grammar"
+TECHNIQUE = "differential property-based testing (Hypothesis): parser vs independent chart recogniser and own LL(1) predictive parser; exhaustive enumeration of all short token strings per generated grammar; closed-form membership for AnyTokenExcept shapes under explicit skip_tokens"
 LEVEL_TEXT = ("Exploration: ~1.6k generated grammars per quick run (64k thorough); for each conflict-free (grammar, setting) every token "
               "string up to length 5 (364 strings) plus sampled sentences and mutations is parsed and the accept/reject decision "
               "compared with the chart recogniser; for LL(1)-as-written grammars the tree is compared with the unique derivation. "
